@@ -124,7 +124,7 @@ def encode(o, objs, depth=0, rows=None):
     quals += [("x:" + e.name, e) for e in o.extension]
     row = [depth, oid_of(objs, o), cls_code(o), KEYS.index(o.id_short) if o.id_short in KEYS else -1,
            payload(o), src_code(o)]
-    for qk, q in quals:
+    for qk, q in sorted(quals, key=lambda t: QKEYS.index(t[0]) if t[0] in QKEYS else 99):
         row += [QKEYS.index(qk) if qk in QKEYS else -1, oid_of(objs, q), q.value if isinstance(q.value, int) else -1]
     rows.append(row)
     for S in kid_sets(o):
